@@ -68,19 +68,21 @@ def step (line : String) : String :=
   | "#case" :: _ => "-\t-\t-"
   | "post" :: rest =>
     let posters := kv fi "posters"; let close := kv fi "close"; let leak := kv fi "leak"; let panic := kv fi "panic"
-    let ic := s!"posters={posters.getD "?"} close={close.getD "?"} leak={leak.getD "?"}"
-    let mc := "posters=true close=true leak=0"
+    let queries := kv fi "queries"
+    let ic := s!"posters={posters.getD "?"} queries={queries.getD "?"} close={close.getD "?"} leak={leak.getD "?"}"
+    let mc := "posters=true queries=true close=true leak=0"
     let plans : List (List Char) := (((kv fi "plans").getD "").splitOn ",").map String.toList
     let verdict :=
       match parseRecv ((kv fi "recv").getD "-") with
       | none => "FAIL malformed trace"
       | some recv =>
         let q := ((kv rest "q").bind String.toNat?).getD 0
-        let total := plans.foldl (fun (a : Nat) (p : List Char) => a + p.length) 0 + ((kv rest "keys").bind String.toNat?).getD 0 + 4
+        let total := plans.foldl (fun (a : Nat) (p : List Char) => a + p.length) 0 + ((kv rest "keys").bind String.toNat?).getD 0 + 44
         match checkTrace plans recv (posters == some "true") (q == 0 && total < 1024) with
         | some v => s!"FAIL {v}"
         | none =>
           if posters != some "true" then "FAIL a poster did not finish (deadlock while posting)"
+          else if queries != some "true" then "FAIL a terminal query (CursorPosition / ClipboardPop) did not return: a requester or the input goroutine is blocked on a hand-off channel"
           else if panic != some "\"\"" then s!"FAIL Close panicked: {panic.getD ""}"
           else if close != some "true" then "FAIL Close did not return within the bound"
           else if leak != some "0" then s!"FAIL {leak.getD "?"} library goroutine(s) left after Close"
